@@ -6,6 +6,8 @@
 (*   {"ev":"set", "post":S}            resynchronise the abstract state    *)
 (*   {"ev":"Emit", "post":S}           a front-end emitted the machine the *)
 (*                                     preceding "set" describes (C16)     *)
+(*   {"ev":"CliDelOutputs"|"CliDelInputs", "ks":list, "post":S}  the     *)
+(*                                     command line's list deletions       *)
 (*   {"ev":"Netlist", "post":NL}       the generated top-level Verilog of  *)
 (*                                     that machine read back as wiring    *)
 (*   {"ev":<edit>, args..., "post":S}  one API call and the state the real *)
@@ -95,13 +97,35 @@ TDelBond ==
      IN  IF ds = {} THEN UNCHANGED avars ELSE ADelBond(CHOOSE s \in ds : TRUE)
   /\ Judge(Trace[l].post)
 
+\* the command line deletes a LIST of external outputs / inputs: the set of listed ids that exist
+\* (as numbered before the call), whatever the order and the repetitions in the list
+DelOutF(st, k) == [nout |-> st.nout - 1,
+                   bonds |-> {<<b[1], RenOut(b[2], k)>> : b \in {c \in st.bonds : c[2] # B(1, k, 0)}}]
+DelInF(st, k) == [nin |-> st.nin - 1,
+                  bonds |-> {<<RenIn(b[1], k), b[2]>> : b \in {c \in st.bonds : c[1] # B(0, k, 0)}}]
+MaxOf(S) == CHOOSE m \in S : \A x \in S : x <= m
+RECURSIVE DelOuts(_, _)
+DelOuts(st, S) == IF S = {} THEN st ELSE DelOuts(DelOutF(st, MaxOf(S)), S \ {MaxOf(S)})
+RECURSIVE DelIns(_, _)
+DelIns(st, S) == IF S = {} THEN st ELSE DelIns(DelInF(st, MaxOf(S)), S \ {MaxOf(S)})
+TCliDelOutputs ==
+  /\ IsEvent("CliDelOutputs")
+  /\ LET r == DelOuts([nout |-> anout, bonds |-> bonds], {k \in ToSet(Trace[l].ks) : k >= 0 /\ k < anout})
+     IN  anout' = r.nout /\ bonds' = r.bonds /\ UNCHANGED <<anin, aprocs, adoms>>
+  /\ Judge(Trace[l].post)
+TCliDelInputs ==
+  /\ IsEvent("CliDelInputs")
+  /\ LET r == DelIns([nin |-> anin, bonds |-> bonds], {k \in ToSet(Trace[l].ks) : k >= 0 /\ k < anin})
+     IN  anin' = r.nin /\ bonds' = r.bonds /\ UNCHANGED <<anout, aprocs, adoms>>
+  /\ Judge(Trace[l].post)
+
 TraceInit ==
   /\ anin = 0 /\ anout = 0 /\ aprocs = <<>> /\ adoms = <<>> /\ bonds = {}
   /\ l = 1 /\ err = ""
 
 TraceNext ==
   \/ TSet \/ TAddInput \/ TAddOutput \/ TDelInput \/ TDelOutput \/ TAddProc
-  \/ TAddBond \/ TAttachBC \/ TDelBond \/ TSaveLoad \/ TEmit \/ TNetlist
+  \/ TAddBond \/ TAttachBC \/ TDelBond \/ TSaveLoad \/ TEmit \/ TNetlist \/ TCliDelOutputs \/ TCliDelInputs
 
 TraceSpec == TraceInit /\ [][TraceNext]_tvars
 
